@@ -527,6 +527,16 @@ class Component(CaselessDict):
         content_lines = self.content_lines(sorted=sorted)
         return content_lines.to_ical()
 
+    def copy(self):
+        """Return a copy of the properties without the subcomponents.
+
+        The copy of a component that is not defined in RFC 5545 keeps its name.
+        """
+        copy = super().copy()
+        if copy.name != self.name:
+            copy.name = self.name
+        return copy
+
     def __repr__(self):
         """String representation of class with all of it's subcomponents.
         """
